@@ -924,6 +924,14 @@ impl<'a> Tr<'a> {
 
     fn method_call(&mut self, m: &syn::ExprMethodCall, expect: Option<&Ty>) -> R<Out> {
         let name = m.method.to_string();
+        // `teq.to_right(x)` / `teq.to_left(x)`: type-equality casts of a witness arm are the identity
+        if (name == "to_right" || name == "to_left") && m.args.len() == 1 {
+            if let Expr::Path(pp) = peel(&m.receiver) {
+                if pp.path.is_ident("teq") {
+                    return self.expr(&m.args[0], expect);
+                }
+            }
+        }
         let recv = self.expr(&m.receiver, None)?;
         if recv.diverges {
             return Ok(recv);
